@@ -15,6 +15,7 @@ class CallGraph:
                 continue
             for it in imp['items']:
                 self.fanout.setdefault('%s::%s' % (tr, it['name']), []).append(it['path'])
+        self.local_traits = {t['path'] for t in facts.items['traits']}
         self.edges = {}
         self.sites = {}  # (caller, callee) -> [terminator]
         for path, m in facts.mir.items():
@@ -44,11 +45,19 @@ class CallGraph:
             out.append(res)
             # a resolved provided method (trait default) is exact
             return out
+        if res is not None and res != cal:
+            # rustc resolved the call to a concrete non-local instance: no local target
+            return out
         if cal in self.local and not self.fanout.get(cal):
             out.append(cal)
             return out
+        tr = term.get('trait')
+        if tr is not None and tr not in self.local_traits:
+            # unresolved call of a std trait on a generic parameter (I: Iterator, ..): the value was built
+            # by the caller; its body is reached from where it was constructed, not from here
+            return out
         if cal in self.fanout or cal in self.local:
-            # unresolved trait method: all impls + the provided body
+            # unresolved local-trait method: all impls + the provided body
             out.extend(p for p in self.fanout.get(cal, []) if p in self.local)
             if cal in self.local:
                 out.append(cal)
